@@ -9,18 +9,31 @@ TOKENS = ["s:plain", "s: lead", "s:trail ", "s: ", "s:", "s:@nonascii", "s:@esca
           "a:[i:1|s:x]", "a:[s: pad ]", "a:[]", "m:{a=i:1;b=m:{c=s:z}}", "m:{__type=s:DateTime;value=i:5}",
           "m:{__type=s:Vector;value=a:[f:1.0]}", "m:{__type=s:Other}", "m:{}"]
 
-GEN = """SPECIFICATION Spec
+GEN0 = """SPECIFICATION Spec
 CONSTANTS MaxNodes = {maxn}
           MaxRels = {maxr}
           Tokens = {tokens}
           Dev = {dev}
           MaxHist = {maxh}
           Extras = {extras}
+          FamKinds = {famk}
+          FamSizes = {fams}
 {view}
 {emit}
 INVARIANTS {inv}
 CHECK_DEADLOCK FALSE
 """
+
+class _Gen:
+    """GEN.format with the scaled-family constants defaulting to none"""
+    @staticmethod
+    def format(**kw):
+        kw.setdefault("famk", "{}")
+        kw.setdefault("fams", "{}")
+        return GEN0.format(**kw)
+
+
+GEN = _Gen
 
 TRACE = """SPECIFICATION TSpec
 CONSTANTS OpenKF = @OPENKF@
@@ -63,15 +76,22 @@ def run(ctx):
     for d, toks, ex in tests:
         ctx.tlc_gen("MC_SnapshotRT", GEN.format(maxn=2, maxr=1, tokens=toks, dev='{"%s"}' % d, maxh=6, extras=ex, view="VIEW View", emit="",
                                                 inv="RoundTripIdeal"), "selftest-" + d, expect_violation=True, workers=2)
-    # (c) one boundary token at a time: every graph of one node + one (self-)relationship x every token x every place
+    # (c) one boundary token at a time: every graph of one node + one (self-)relationship x every token x every place;
+    #     the same run chooses the scaled families (kind, n): ring / chain / sparse graphs whose relationship count crosses
+    #     the word boundaries of export's relationship-id bitset.  The harness builds them and logs a count abstraction of
+    #     the imported store; TLC compares it with the same abstraction of the family definition (SnapshotRT!FamilyOK)
     scripts = ctx.tlc_gen("MC_SnapshotRT", GEN.format(maxn=1, maxr=1, tokens=tset(TOKENS), dev="{}", maxh=3, extras="{}", view="VIEW View",
+                                                      famk='{"ring", "chain", "sparse"}',
+                                                      fams="{63, 64, 65, 127, 128, 129}" if q else "{5, 62, 63, 64, 65, 66, 127, 128, 129, 191, 192, 193, 256}",
                                                       emit="ACTION_CONSTRAINT Emit", inv="RoundTripIdeal"), "tokens", workers=W, timeout=3000)
     # (d) structure: every graph of <= 2 nodes / <= 2 relationships (labels, direction, type, multiplicity, stub / full) with plain values
     scripts += ctx.tlc_gen("MC_SnapshotRT", GEN.format(maxn=2, maxr=1 if q else 2, tokens="{}", dev="{}", maxh=4 if q else 5, extras="{}",
                                                        view="VIEW View", emit="ACTION_CONSTRAINT Emit", inv="RoundTripIdeal"),
                            "structure", workers=W, timeout=3000)
+    fam = [x for x in scripts if x[0]["op"] == "FamilyRT"]
+    scripts = [x for x in scripts if x[0]["op"] != "FamilyRT"]
     ctx.rng.shuffle(scripts)
-    scripts = scripts[:300 if q else 6000]
+    scripts = fam + scripts[:300 if q else 6000]
     # (e) random histories with version bumps, rewrites, compaction, deletions, hierarchy declarations, <= 3 nodes / <= 3 rels
     for depth in ((9,) if q else (6, 8, 10, 12)):
         scripts += ctx.tlc_gen("MC_SnapshotRT", GEN.format(maxn=3, maxr=3, tokens=tset(TOKENS), dev="{}", maxh=depth, extras=ALLX, view="",
@@ -81,6 +101,9 @@ def run(ctx):
                "escape-laden strings, i64 extremes, floats incl. -0.0, 1e300, NaN, +-inf, bool, datetime, duration, vectors, arrays, nested "
                "map, maps with a __type key, empty containers), at most one boundary token per graph",
                "a property set to null is an absent property; set_node_property is exercised on row-backed nodes only",
+               "scaled families (ring / chain / sparse, sizes around 64, 128, ...) are compared through a count abstraction (node summary; "
+               "relationships grouped by end-point offset, type and properties with count and sum of source handles), not by a full "
+               "isomorphism search",
                "hierarchy declarations are compared by name, relationship types, measure property and monoids (what HierarchyIndexManager::list exposes)")
     sp = ctx.write_scripts("snapshot12", scripts)
     tr = ctx.run_harness("snapshot", sp, name="snapshot12", timeout=3000)
